@@ -84,6 +84,16 @@ enum FontKind {
     /// the glyphs of BitFont::from_ansi_font_page(page) under ANY name (the name is independent of the glyph data);
     /// edit = Some(seed): four glyph bytes chosen by the seed are redrawn (size and length unchanged)
     BuiltinAs { page: u8, name: String, edit: Option<u32> },
+    /// CONSTRUCTION ROUTE "clone": a clone of the font object of an earlier slot (`of` = selector into [slot 0, earlier
+    /// entries of `fonts`]; used in slot 0 it clones the stock font), then `edits` (glyph character, row, xor mask | 1) applied
+    /// IN PLACE through get_glyph_mut. refresh = false leaves the cached BitFont::checksum of the original (stale), true calls
+    /// calculate_checksum(). rename = Some(new name).
+    CloneOf { of: u16, edits: Vec<(u8, u8, u8)>, rename: Option<String>, refresh: bool },
+    /// built-in page edited in place, same conventions as CloneOf
+    PageEdited { page: u8, edits: Vec<(u8, u8, u8)>, rename: Option<String>, refresh: bool },
+    /// CONSTRUCTION ROUTE BitFont::from_bytes: fmt 0 = raw 256 x h bytes (8 x h), 1 = PSF1 (8 x h, 256/512 glyphs), 2 = PSF2 (w x h, 256/512);
+    /// glyph bytes = fb_data(seed, ..)
+    FromBytes { fmt: u8, name: String, w: u8, h: u8, big: bool, seed: u32 },
 }
 
 #[derive(Clone, Debug, Hash, PartialEq, Eq, Serialize, Deserialize)]
@@ -351,8 +361,84 @@ fn observe(buf: &Buffer) -> Obs {
 
 // ------------------------------------------------------------------------------------------------ model -> expected / engine objects
 
+fn apply_edits(f: &mut BitFont, edits: &[(u8, u8, u8)], rename: &Option<String>, refresh: bool) {
+    for (c, row, x) in edits {
+        if let Some(g) = f.get_glyph_mut(char::from(*c)) {
+            if !g.data.is_empty() {
+                let i = *row as usize % g.data.len();
+                g.data[i] ^= *x | 1;
+            }
+        }
+    }
+    if let Some(n) = rename {
+        f.name = n.clone();
+    }
+    if refresh {
+        f.calculate_checksum();
+    }
+}
+
+/// glyph data of a FromBytes font; a raw font must not start with a PSF magic
+fn fb_data(seed: u32, n: usize) -> Vec<u8> {
+    let mut d = prng_bytes(seed, n);
+    if let Some(b) = d.first_mut() {
+        if *b == 0x36 || *b == 0x72 {
+            *b ^= 1;
+        }
+    }
+    d
+}
+
+fn fb_dims(fmt: u8, w: u8, big: bool) -> (usize, i32) {
+    match fmt % 3 {
+        0 => (256, 8),
+        1 => (if big { 512 } else { 256 }, 8),
+        _ => (if big { 512 } else { 256 }, w as i32),
+    }
+}
+
+/// the font objects of the document in slot order (slot 0 first); clones refer to the objects built before them
+fn make_fonts(doc: &Doc) -> Result<Vec<(usize, BitFont)>, String> {
+    let mut out: Vec<(usize, BitFont)> = Vec::new();
+    let kinds = std::iter::once((0usize, &doc.font0)).chain(doc.fonts.iter().map(|f| (f.slot as usize, &f.kind)));
+    for (slot, k) in kinds {
+        let f = match k {
+            FontKind::CloneOf { of, edits, rename, refresh } => {
+                let mut f = if out.is_empty() { BitFont::default() } else { out[pick(*of, out.len())].1.clone() };
+                apply_edits(&mut f, edits, rename, *refresh);
+                f
+            }
+            other => make_font(other)?,
+        };
+        out.push((slot, f));
+    }
+    Ok(out)
+}
+
 fn make_font(k: &FontKind) -> Result<BitFont, String> {
     match k {
+        FontKind::CloneOf { .. } => Err("clone outside make_fonts".into()),
+        FontKind::PageEdited { page, edits, rename, refresh } => {
+            let mut f = BitFont::from_ansi_font_page(*page as usize).map_err(|e| format!("builtin font {page}: {e}"))?;
+            apply_edits(&mut f, edits, rename, *refresh);
+            Ok(f)
+        }
+        FontKind::FromBytes { fmt, name, w, h, big, seed } => {
+            let (n, _) = fb_dims(*fmt, *w, *big);
+            let glyphs = fb_data(*seed, n * *h as usize);
+            let mut bytes = Vec::new();
+            match fmt % 3 {
+                0 => {}
+                1 => bytes.extend([0x36, 0x04, u8::from(n == 512), *h]),
+                _ => {
+                    for v in [0x864a_b572u32, 0, 32, 0, n as u32, *h as u32, *h as u32, *w as u32] {
+                        bytes.extend(v.to_le_bytes());
+                    }
+                }
+            }
+            bytes.extend(&glyphs);
+            BitFont::from_bytes(name.clone(), &bytes).map_err(|e| format!("from_bytes route {fmt}: {e}"))
+        }
         FontKind::Builtin(n) => BitFont::from_ansi_font_page(*n as usize).map_err(|e| format!("builtin font {n}: {e}")),
         FontKind::Custom { name, w, h, big, seed } => {
             let glyphs = if *big { 512 } else { 256 };
@@ -384,13 +470,24 @@ fn make_font(k: &FontKind) -> Result<BitFont, String> {
     }
 }
 
-fn expected_font(k: &FontKind) -> Result<FontObs, String> {
+/// expectation of one slot: always get_glyph over 0..length of the document's font object (never a cached field);
+/// for fonts whose glyph bytes the model knows (Custom, FromBytes) directly from the model
+fn expected_font(k: &FontKind, built: &BitFont) -> Result<FontObs, String> {
     match k {
-        FontKind::Builtin(_) => Ok(font_obs(&make_font(k)?)),
+        FontKind::Builtin(_) | FontKind::CloneOf { .. } | FontKind::PageEdited { .. } => Ok(font_obs(built)),
         FontKind::BuiltinAs { name, .. } => {
-            let mut o = font_obs(&make_font(k)?);
+            let mut o = font_obs(built);
             o.name = name.clone();
             Ok(o)
+        }
+        FontKind::FromBytes { fmt, name, w, h, big, seed } => {
+            let (n, width) = fb_dims(*fmt, *w, *big);
+            Ok(FontObs {
+                name: name.clone(),
+                size: (width, *h as i32),
+                length: n as i32,
+                glyphs: fb_data(*seed, n * *h as usize).chunks(*h as usize).map(|c| Some(c.to_vec())).collect(),
+            })
         }
         FontKind::Custom { name, w, h, big, seed } => {
             let glyphs = if *big { 512 } else { 256 };
@@ -528,9 +625,10 @@ fn expected(doc: &Doc) -> Result<Obs, String> {
         }
     };
     let mut fonts = BTreeMap::new();
-    fonts.insert(0usize, expected_font(&doc.font0)?);
-    for f in &doc.fonts {
-        fonts.insert(f.slot as usize, expected_font(&f.kind)?);
+    let built = make_fonts(doc)?;
+    let kinds = std::iter::once(&doc.font0).chain(doc.fonts.iter().map(|f| &f.kind));
+    for (k, (slot, f)) in kinds.zip(built.iter()) {
+        fonts.insert(*slot, expected_font(k, f)?);
     }
     Ok(Obs {
         size: (doc.w as i32, doc.h as i32),
@@ -560,9 +658,8 @@ fn build(doc: &Doc) -> Result<Buffer, String> {
     buf.font_mode = [FontMode::Unlimited, FontMode::Sauce, FontMode::Single, FontMode::FixedSize][doc.modes.3 as usize % 4];
 
     buf.clear_font_table();
-    buf.set_font(0, make_font(&doc.font0)?);
-    for f in &doc.fonts {
-        buf.set_font(f.slot as usize, make_font(&f.kind)?);
+    for (slot, f) in make_fonts(doc)? {
+        buf.set_font(slot, f);
     }
 
     match &doc.palette {
@@ -1240,13 +1337,56 @@ fn font0() -> BoxedStrategy<FontKind> {
         1 => builtin_as((1u8..42).boxed(), Just(stock_name()).boxed(), prop_oneof![Just(None), any::<u32>().prop_map(Some)].boxed()),
         1 => custom_font(Just(stock_name()).boxed()),
         2 => builtin_as(Just(0u8).boxed(), uni_string(30), Just(None).boxed()),
+        2 => page_edited(Just(0u8).boxed()),
         5 => font_kind(),
     ]
     .boxed()
 }
 
+fn glyph_edits() -> BoxedStrategy<Vec<(u8, u8, u8)>> {
+    prop_oneof![3 => vec(any::<(u8, u8, u8)>(), 1..=1), 2 => vec(any::<(u8, u8, u8)>(), 1..=8), 1 => vec(any::<(u8, u8, u8)>(), 8..=8)].boxed()
+}
+
+fn rename() -> BoxedStrategy<Option<String>> {
+    prop_oneof![3 => Just(None), 2 => font_name().prop_map(Some)].boxed()
+}
+
+/// clone of an earlier slot: unedited (equal glyphs, maybe another name) or edited in place, mostly WITHOUT checksum refresh
+fn clone_of() -> BoxedStrategy<FontKind> {
+    (
+        prop_oneof![2 => Just(0u16), 2 => Just(u16::MAX), 1 => any::<u16>()],
+        prop_oneof![2 => Just(Vec::new()).boxed(), 5 => glyph_edits()],
+        rename(),
+        prop_oneof![4 => Just(false), 1 => Just(true)],
+    )
+        .prop_map(|(of, edits, rename, refresh)| FontKind::CloneOf { of, edits, rename, refresh })
+        .boxed()
+}
+
+fn page_edited(page: BoxedStrategy<u8>) -> BoxedStrategy<FontKind> {
+    (page, glyph_edits(), rename(), prop_oneof![4 => Just(false), 1 => Just(true)])
+        .prop_map(|(page, edits, rename, refresh)| FontKind::PageEdited { page, edits, rename, refresh })
+        .boxed()
+}
+
+fn from_bytes_font() -> BoxedStrategy<FontKind> {
+    (
+        0u8..3,
+        font_name(),
+        prop_oneof![5 => Just(8u8), 1 => 1u8..=8],
+        prop_oneof![3 => Just(16u8), 2 => Just(8u8), 3 => 1u8..=32, 1 => Just(1u8), 1 => Just(32u8)],
+        prop_oneof![3 => Just(false), 1 => Just(true)],
+        any::<u32>(),
+    )
+        .prop_map(|(fmt, name, w, h, big, seed)| FontKind::FromBytes { fmt, name, w, h, big, seed })
+        .boxed()
+}
+
 fn font_kind() -> BoxedStrategy<FontKind> {
     prop_oneof![
+        4 => clone_of(),
+        2 => page_edited(prop_oneof![2 => Just(0u8), 1 => 0u8..42].boxed()),
+        2 => from_bytes_font(),
         3 => (0u8..42).prop_map(FontKind::Builtin),
         2 => builtin_as(prop_oneof![1 => Just(0u8), 2 => 0u8..42].boxed(), font_name(), prop_oneof![Just(None), any::<u32>().prop_map(Some)].boxed()),
         2 => custom_font(font_name()),
@@ -1510,6 +1650,97 @@ fn font_name_case(i: u64) -> Doc {
     d
 }
 
+/// SAUCE record x buffer geometry/modes: buffer size {0x0, 0x5, 5x0, 1x1, 81x26} x ice mode {unlimited, blink, ice} x
+/// SAUCE {absent, present with use_ice false, present with use_ice true + both flags} x slot-0 font {stock, custom glyphs named like a SAUCE font}
+const SAUCE_BUFFER_CASES: u64 = 5 * 3 * 3 * 2;
+fn sauce_buffer_case(i: u64) -> Doc {
+    let (sz, ice, sa, fnt) = (i % 5, (i / 5) % 3, (i / 15) % 3, (i / 45) % 2);
+    let (w, h) = [(0u16, 0u16), (0, 5), (5, 0), (1, 1), (81, 26)][sz as usize];
+    let mut d = small_doc(
+        vec![
+            plain_layer("bg", 3, 2, vec![Row { cells: vec![S_CELL], pad: 0 }]),
+            plain_layer("top", 2, 2, vec![Row { cells: vec![L_CELL], pad: 0 }]),
+        ],
+        "",
+    );
+    d.w = w;
+    d.h = h;
+    d.modes = (1, ice as u8, 1, 1);
+    d.sauce = match sa {
+        0 => None,
+        1 => Some(SauceM { title: "t".into(), author: "a".into(), group: "g".into(), comments: vec![], letter_spacing: false, aspect_ratio: false, use_ice: false }),
+        _ => Some(SauceM { title: "title".into(), author: String::new(), group: "grp".into(), comments: vec!["one".into(), String::new(), "three".into()], letter_spacing: true, aspect_ratio: true, use_ice: true }),
+    };
+    if fnt == 1 {
+        d.font0 = FontKind::Custom { name: "IBM VGA".into(), w: 8, h: 16, big: false, seed: 3 };
+    }
+    d
+}
+
+/// selector that `pick` maps to index idx of n candidates
+fn sel_for(idx: usize, n: usize) -> u16 {
+    (((idx << 16) / n) + 1).min(65535) as u16
+}
+
+/// CONSTRUCTION ROUTES: base font {stock page, create_8 8x8, create_8 512 glyphs 7x19, from_bytes raw 8x14} x derivation
+/// {plain clone, renamed clone, clone + 1 glyph edited in place (stale checksum), clone + 8 edits renamed (stale), clone + 1 edit with
+/// refreshed checksum, three clones with different stale edits (one of them a clone of a clone)} x layout {base in slot 0 / clones 1..,
+/// base in slot 0 / clones 256.., base in slot 1 / clones 2..}: slots with equal size, length and STORED checksum but different glyphs.
+const FONT_ROUTE_CASES: u64 = 4 * 6 * 3;
+fn font_route_case(i: u64) -> Doc {
+    let (b, der, layout) = (i % 4, (i / 4) % 6, (i / 24) % 3);
+    let base = match b {
+        0 => FontKind::Builtin(0),
+        1 => FontKind::Custom { name: "base".into(), w: 8, h: 8, big: false, seed: 11 },
+        2 => FontKind::Custom { name: "base".into(), w: 7, h: 19, big: true, seed: 12 },
+        _ => FontKind::FromBytes { fmt: 0, name: "base".into(), w: 8, h: 14, big: false, seed: 13 },
+    };
+    // position of the base among the candidates [font0, fonts..]
+    let base_pos = if layout == 2 { 1 } else { 0 };
+    let clone = |pos_self: usize, of_pos: usize, edits: Vec<(u8, u8, u8)>, rename: Option<&str>, refresh: bool| FontKind::CloneOf {
+        of: sel_for(of_pos, pos_self),
+        edits,
+        rename: rename.map(|s| s.to_string()),
+        refresh,
+    };
+    let p0 = base_pos + 1; // candidate count seen by the first derived font = its own position
+    let eight: Vec<(u8, u8, u8)> = (0..8u8).map(|k| (b'A' + k, k, 0x10 << (k % 4))).collect();
+    let derived: Vec<FontKind> = match der {
+        0 => vec![clone(p0, base_pos, vec![], None, false)],
+        1 => vec![clone(p0, base_pos, vec![], Some("other name"), false)],
+        2 => vec![clone(p0, base_pos, vec![(b'A', 3, 0x18)], None, false)],
+        3 => vec![clone(p0, base_pos, eight, Some("edited"), false)],
+        4 => vec![clone(p0, base_pos, vec![(b'A', 3, 0x18)], None, true)],
+        _ => vec![
+            clone(p0, base_pos, vec![(b'A', 3, 0x18)], None, false),
+            clone(p0 + 1, base_pos, vec![(b'B', 5, 0x24)], Some("second"), false),
+            clone(p0 + 2, p0 + 1, vec![(0xDB, 0, 0x81)], None, false),
+        ],
+    };
+    let first_slot: u16 = match layout {
+        0 => 1,
+        1 => 256,
+        _ => 2,
+    };
+    let mut fonts = Vec::new();
+    let font0 = if layout == 2 {
+        fonts.push(FontM { slot: 1, kind: base });
+        FontKind::Builtin(0)
+    } else {
+        base
+    };
+    for (k, kind) in derived.into_iter().enumerate() {
+        fonts.push(FontM { slot: first_slot + k as u16, kind });
+    }
+    // one cell per slot so that the preview renders from every font
+    let n = fonts.len() + 1;
+    let cells: Vec<Cell> = (0..n).map(|k| Cell::V(0x141 + k as u32, 1, 2, 0, sel_for(k, n))).collect();
+    let mut d = small_doc(vec![plain_layer("bg", 4, 2, vec![Row { cells: vec![S_CELL], pad: 0 }]), plain_layer("t", n as u16 + 1, 1, vec![Row { cells, pad: 0 }])], "");
+    d.font0 = font0;
+    d.fonts = fonts;
+    d
+}
+
 /// rows of a completely filled w x h layer: `mixed` = long / short / invisible alternating, else every cell long-form (16 bytes each)
 fn filled_rows(w: usize, h: usize, mixed: bool) -> Vec<Row> {
     (0..h)
@@ -1598,6 +1829,10 @@ fn main() {
          layer_flags (exhaustive): role x mode x 32 flag sets x colour tag. row_shapes (exhaustive): every row over {invisible,short,long}^w, w=0..=4, x 4 following rows x 2 storage forms. \
          chunk_straddle (fixed table, both tiers): completely filled layers 64x64 .. 200x120 (64 KiB .. 384 KB of long-form records, and a long/short/invisible mix) x flags {none, locked, hidden, alpha+alpha-locked} x big layer first/second, and image layers with 64 KiB .. 384 KB of pixels. \
          font_names (exhaustive table): slot {0,1,256} x glyphs {stock, redrawn stock, other built-in, custom 8x8, custom 512 x 7x19} x name {stock default name, other built-in name, empty, foreign}. \
+         sauce_buffer (exhaustive table): buffer size {0x0,0x5,5x0,1x1,81x26} x ice mode x SAUCE {absent, plain, all flags + comments} x slot-0 font {stock, custom glyphs under a SAUCE font name}. \
+         font_routes (exhaustive table): base font {stock page, create_8 8x8, create_8 512 glyphs, from_bytes raw} x {plain clone, renamed clone, clone with 1 / 8 glyphs edited in place and stale cached checksum, \
+         edited clone with refreshed checksum, three stale clones incl. a clone of a clone} x 3 slot layouts. font construction route is a generated dimension: built-in page, from_bytes raw/PSF1/PSF2, create_8, clone of an earlier slot \
+         (unedited / renamed / 1..=8 glyphs edited in place, 80% without calculate_checksum()), built-in page edited in place; a third of the extra slots are clones or edited pages, so documents regularly hold slots of equal size, length and stored checksum with different glyphs. \
          fonts: names are independent of glyph data (stock name 'Codepage 437 English' on redrawn/other/custom glyphs in slot 0 in 15% of documents and in other slots; stock glyphs under foreign names). \
          cell_values (exhaustive): product of boundary values char {0x41,255,256,0xD7FF,0xE000,0x10FFFF} x fg,bg {7,255,256,TRANSPARENT,0xFFFFFFFF} x font page {0,255,256,300} x attr {0,0x3FF,0x200}. \
          Non-trivial: >= 2 layers AND >= 1 long-form cell on a Normal layer AND >= 1 row terminator (a row of a Normal layer whose visible length is below the layer width); distinct by hash of the model.",
@@ -1606,12 +1841,14 @@ fn main() {
     eng.assume("Image layers carry exactly one sixel at position (0,0) with width*height*4 bytes and no cells; Normal layers carry no sixels (the format document defines nothing else)");
     eng.assume("invisible cells are exactly AttributedChar::invisible(); attribute bits 10..=13 unused; no more lines than the layer height; cells stored beyond the layer width are not part of the document (Layer::get_char reports them invisible)");
     eng.assume("palette meta data and colour names are single-line text without leading/trailing blanks; SAUCE strings are CP437-representable, compared after trimming trailing blanks; SAUCE ice flag expected = (buffer ice mode == Ice); SAUCE date, data type, font name and size fields are derived on save and not compared");
-    eng.assume("font type (BuiltIn/Custom), file path, checksums and glyph entries beyond `length` are not part of a font slot's content");
+    eng.assume("font type (BuiltIn/Custom), file path, the cached checksum field and glyph entries beyond `length` are not part of a font slot's content; a slot's expected content is get_glyph over 0..length of the document's font object (or the model's own glyph bytes), never a cached field");
 
     eng.enumerated(PartCfg::new("layer_flags", 0, 0).exhaustive(true), FLAG_CASES, flag_case, check);
     eng.enumerated(PartCfg::new("row_shapes", 0, 0).exhaustive(true), ROW_CASES, row_case, check);
     eng.enumerated(PartCfg::new("cell_values", 0, 0).exhaustive(true), CELL_VALUE_CASES, cell_value_case, check);
     eng.enumerated(PartCfg::new("font_names", 0, 0).exhaustive(true), FONT_NAME_CASES, font_name_case, check);
+    eng.enumerated(PartCfg::new("sauce_buffer", 0, 0).exhaustive(true), SAUCE_BUFFER_CASES, sauce_buffer_case, check);
+    eng.enumerated(PartCfg::new("font_routes", 0, 0).exhaustive(true), FONT_ROUTE_CASES, font_route_case, check);
     eng.enumerated(PartCfg::new("chunk_straddle", 0, 0).exhaustive(true), CHUNK_CASES, chunk_case, check);
     eng.generated(PartCfg::new("documents", 160_000, 2_400_000), documents, check);
     eng.generated(PartCfg::new("boundary", 240, 8_000).shrink_budget(300), boundary, check);
